@@ -50,6 +50,8 @@ pub fn gen_contents(rng: &mut Rng, n: usize, max_len: usize, srcs: &[SrcKind], c
                 Flavor::Random,
                 Flavor::MixedLowHigh,
                 Flavor::MixedHighLow,
+                Flavor::SignedText,
+                Flavor::SignedRandom,
             ]);
             let hint = if comp == Comp::None {
                 *rng.pick(&[Hint::No, Hint::Yes, Hint::Detect])
@@ -329,9 +331,27 @@ impl TCheck for C08 {
                 },
             );
         }
+        // one work in sixteen has a single compressible content larger than everything the
+        // dispatch queue may hold at once (2 x workers clusters of 4 MiB) with one or two workers
+        let oversize = work % 64 == 13;
+        // (a fast codec: the point is the size, not the compression)
+        let comp = if oversize { *rng.pick(&[Comp::Lz4(3), Comp::Zstd(-5)]) } else { comp };
         // one work in sixteen does not set the worker-count knob and runs as on a one-CPU host
         let one_cpu = work % 16 == 3;
-        let workers = rng.range(1, 15);
+        let workers = if oversize { 1 } else { rng.range(1, 15) };
+        if oversize {
+            let len = (2 * workers as usize + 1) * (4 << 20) + rng.range(1, 100_000) as usize;
+            let at = rng.usize_below(contents.len() + 1);
+            contents.insert(
+                at,
+                ContentSpec {
+                    bytes: Arc::new(gen::gen_bytes(&mut rng, 700, len, Flavor::Text)),
+                    hint: Hint::Yes,
+                    src: SrcKind::Cursor,
+                    pack: 1,
+                },
+            );
+        }
         let max_blobs = rng.range(1, 6);
         let max_size = *rng.pick(&[256u64, 1024, 4096]);
         // one work in sixteen has a run of zero-length compressible contents long enough to fill
@@ -374,7 +394,7 @@ impl TCheck for C08 {
         if one_cpu {
             knobs.retain(|(k, _)| *k != "creator_workers");
         }
-        if big {
+        if big || oversize {
             // keep the big content in a cluster of its own size class
             knobs.retain(|(k, _)| *k != "cluster_max_size" && *k != "decode_chunk");
             knobs.push(("decode_chunk", 65536));
@@ -396,7 +416,7 @@ impl TCheck for C08 {
             dedup: false,
             hard_err_call,
         });
-        let desc = json!({"one_cpu_host_no_worker_knob": one_cpu, "run_of_empty_compressible_contents": empty_run, "big_incompressible_content": big, "hard_input_error_at_read_call": hard_err_call, "comp": comp.name(), "contents": w.contents.iter().map(|c| format!("{}{}{}", c.bytes.len(), match c.hint {Hint::Yes=>"Y",Hint::No=>"N",Hint::Detect=>"D"}, match c.src {SrcKind::Cursor=>"c",SrcKind::File=>"f",SrcKind::FileRange=>"r",SrcKind::Sim=>"s",SrcKind::FilePeeked=>"p",SrcKind::FileRangeToEnd=>"e"})).collect::<Vec<_>>(),
+        let desc = json!({"content_larger_than_the_whole_dispatch_queue": oversize, "one_cpu_host_no_worker_knob": one_cpu, "run_of_empty_compressible_contents": empty_run, "big_incompressible_content": big, "hard_input_error_at_read_call": hard_err_call, "comp": comp.name(), "contents": w.contents.iter().map(|c| format!("{}{}{}", c.bytes.len(), match c.hint {Hint::Yes=>"Y",Hint::No=>"N",Hint::Detect=>"D"}, match c.src {SrcKind::Cursor=>"c",SrcKind::File=>"f",SrcKind::FileRange=>"r",SrcKind::Sim=>"s",SrcKind::FilePeeked=>"p",SrcKind::FileRangeToEnd=>"e"})).collect::<Vec<_>>(),
                           "workers": workers, "cluster_max_blobs": max_blobs, "cluster_max_size": max_size});
         let w2 = Arc::clone(&w);
         Prepared {
